@@ -118,6 +118,7 @@ pub fn run(run: &mut Run) -> PResult {
     run.assume("the model's 52 words are the crate's 52 cards (checked by C10)");
     run.assume("strength order derived from the rules of poker; model self-checked against published class and frequency counts");
 
+    super::regress::replay_dir(run, "C01", check_case)?;
     let acc = par_tuples::<5, A>(
         52,
         true,
